@@ -127,11 +127,13 @@ def minmax_symbolic(eng, src, key, default, is_min, line):
 
     def keys():
         eng.run.push()
+        eng.generic_scopes.append((list(v2), len(eng.run.scopes)))
         try:
             eng.run.assume(g2)
             eng.assume_domain(e2)
             k2 = _key_of(eng, key, e2, line)
         finally:
+            eng.generic_scopes.pop()
             eng.run.pop()
         k1 = _key_of(eng, key, e1, line)
         return k1, k2
@@ -173,8 +175,8 @@ def next_symbolic(eng, q, has_default, default, line):
     else:
         eng.partial(ne, 'StopIteration', line)
     eng.run.assume(guard)
-    if isinstance(coll, ListV) and len(vars_) == 1:
-        # first matching index
+    if isinstance(coll, (ListV, OrdIter)) and len(vars_) == 1:
+        # first matching index (lists) / first matching position in insertion order (dicts)
         j = z3.Const('j!nx', I)
         eng.run.assume(z3.ForAll([j], z3.Implies(z3.And(0 <= j, j < vars_[0]), z3.Not(z3.substitute(guard, (vars_[0], j))))))
     return elt
@@ -215,9 +217,13 @@ def listcomp(eng, n, fr):
     length = eng.run.fresh('complen', I)
     eng.run.assume(length >= 0, silent=True)
     eng.heap.set('L.len', z3.Store(ln, r, length))
-    # every element comes from a selected source element, every selected source element appears
-    eng.run.assume(z3.ForAll([j], z3.Implies(z3.And(0 <= j, j < length), z3.Exists(vars_, z3.And(guard, row[j] == et)))), silent=True)
-    eng.run.assume(z3.ForAll(vars_, z3.Implies(guard, z3.Exists([j], z3.And(0 <= j, j < length, row[j] == et)))), silent=True)
+    # every element comes from a selected source element (Skolem arrays src_v: result index -> source element, so that
+    # the fact is triggered by row[j]), every selected source element appears
+    src = [eng.run.fresh('src', arr(I, v.sort())) for v in vars_]
+    sub_j = [(v, a[j]) for v, a in zip(vars_, src)]
+    eng.run.assume(z3.ForAll([j], z3.Implies(z3.And(0 <= j, j < length),
+                                             z3.And(z3.substitute(guard, *sub_j), row[j] == z3.substitute(et, *sub_j))),
+                             patterns=[row[j]]), silent=True)
     eng.run.assume((length == 0) == z3.Not(z3.Exists(vars_, guard)), silent=True)
     if isinstance(coll, ListV) and len(vars_) == 1:
         # order-preserving embedding pos: selected source index -> result index (strictly monotone, onto)
@@ -228,8 +234,11 @@ def listcomp(eng, n, fr):
         e1 = z3.substitute(et, (vars_[0], i1))
         eng.run.assume(z3.ForAll([i1], z3.Implies(g1, z3.And(0 <= pos[i1], pos[i1] < length, row[pos[i1]] == e1))), silent=True)
         eng.run.assume(z3.ForAll([i1, i2], z3.Implies(z3.And(g1, g2, i1 < i2), pos[i1] < pos[i2])), silent=True)
-        eng.run.assume(z3.ForAll([j], z3.Implies(z3.And(0 <= j, j < length),
-                                                 z3.Exists([i1], z3.And(g1, pos[i1] == j)))), silent=True)
+        eng.run.assume(z3.ForAll([j], z3.Implies(z3.And(0 <= j, j < length), pos[src[0][j]] == j), patterns=[row[j]]), silent=True)
+    else:
+        posf = z3.Function(f'posf!{eng.run.fresh_n}', *([v.sort() for v in vars_] + [I]))
+        pj = posf(*vars_)
+        eng.run.assume(z3.ForAll(vars_, z3.Implies(guard, z3.And(0 <= pj, pj < length, row[pj] == et))), silent=True)
     return nl
 
 
@@ -264,18 +273,22 @@ def sorted_symbolic(eng, args, kw, line):
     srow = eng.list_data(src)[1][src.ref]
     i, j = z3.Const('i!so', I), z3.Const('j!so', I)
     inr = lambda x: z3.And(0 <= x, x < n)
-    eng.run.assume(z3.ForAll([i], z3.Implies(inr(i), z3.And(inr(perm[i]), inv[perm[i]] == i, row[i] == srow[perm[i]]))), silent=True)
-    eng.run.assume(z3.ForAll([i], z3.Implies(inr(i), z3.And(inr(inv[i]), perm[inv[i]] == i))), silent=True)
+    eng.run.assume(z3.ForAll([i], z3.Implies(inr(i), z3.And(inr(perm[i]), inv[perm[i]] == i, row[i] == srow[perm[i]])),
+                             patterns=[row[i], perm[i]]), silent=True)
+    eng.run.assume(z3.ForAll([i], z3.Implies(inr(i), z3.And(inr(inv[i]), perm[inv[i]] == i, srow[i] == row[inv[i]])),
+                             patterns=[srow[i], inv[i]]), silent=True)
 
     def keyterms():
         a = eng.wrap(row[i], src.ety)
         b = eng.wrap(row[j], src.ety)
         return _key_of(eng, key, a, line), _key_of(eng, key, b, line)
     eng.run.push()
+    eng.generic_scopes.append(([i, j], len(eng.run.scopes)))
     try:
         eng.run.assume(z3.And(inr(i), inr(j)))
         ki, kj = _sub_generic(eng, keyterms)
     finally:
+        eng.generic_scopes.pop()
         eng.run.pop()
     le = eng.as_bool(eng.order(ast.GtE() if reverse is True else ast.LtE(), ki, kj, line))
     eq = eng.as_bool(eng.eq(ki, kj))
